@@ -50,6 +50,19 @@ Definition parse_go_version (s : string) : option version :=
   if String.eqb v "" then Some (0, 0)
   else match split_on "."%char v with
        | [a; b] => match version_part a, version_part b with
+                   | Some x, Some y => if Z.eqb x 0 then None   (* there is no Go 0.y: major 0 is the internal "no constraint" value *)
+                                       else Some (x, y)
+                   | _, _ => None
+                   end
+       | _ => None
+       end.
+
+(* the routine before the repair that refuses major 0: -go=0.7 was accepted and then treated as the latest version *)
+Definition parse_go_version_zero_major_prefix (s : string) : option version :=
+  let v := trim_prefix "go" s in
+  if String.eqb v "" then Some (0, 0)
+  else match split_on "."%char v with
+       | [a; b] => match version_part a, version_part b with
                    | Some x, Some y => Some (x, y)
                    | _, _ => None
                    end
